@@ -215,6 +215,7 @@ struct Ctx {
   std::string name;
   const json* ops;
   int nput = 0;
+  std::vector<bool> trys; // results of this actor's try_lock operations, in order
   std::shared_ptr<json> obs = std::make_shared<json>(json::array()); // outlives the body: read by on_exit
 };
 
@@ -384,8 +385,18 @@ static json do_op(Ctx& c, int idx, const json& op)
     S->mutexes[I(1)]->lock();
     return nullptr;
   }
-  if (o == "try_lock")
-    return S->mutexes[I(1)]->try_lock();
+  if (o == "try_lock") {
+    bool ok = S->mutexes[I(1)]->try_lock();
+    c.trys.push_back(ok);
+    return ok;
+  }
+  if (o == "unlock_if") { // ["unlock_if", m, j]: unlock iff this actor's j-th try_lock succeeded (else "skipped")
+    if (static_cast<size_t>(I(2)) < c.trys.size() && c.trys[I(2)]) {
+      S->mutexes[I(1)]->unlock();
+      return nullptr;
+    }
+    return "skipped";
+  }
   if (o == "unlock") {
     S->mutexes[I(1)]->unlock();
     return nullptr;
@@ -964,7 +975,13 @@ static void connect_signals()
     json blocked = json::array();
     for (auto const& a : sg4::Engine::get_instance()->get_all_actors()) {
       auto* impl = a->get_impl();
-      std::string on = impl->simcall_.observer_ != nullptr ? impl->simcall_.observer_->to_string() : std::string(impl->simcall_.get_cname());
+      // same rule as EngineImpl::display_all_actor_status(): the observer is only printable when no synchro is waited for
+      std::string on;
+      if (impl->waiting_synchros_.empty())
+        on = impl->simcall_.observer_ != nullptr ? impl->simcall_.observer_->to_string() : std::string(impl->simcall_.get_cname());
+      else
+        for (auto const& sy : impl->waiting_synchros_)
+          on += (on.empty() ? "" : ",") + sy->get_name();
       blocked.push_back({{"a", a->get_name()}, {"on", on}, {"nsynchro", impl->waiting_synchros_.size()}, {"daemon", a->is_daemon()}});
     }
     json j = {{"k", "deadlock"}, {"t", hx(now())}, {"blocked", blocked}};
